@@ -118,6 +118,49 @@ pub open spec fn gss_complete(m: &naga::Module, gs: Map<String, wgpu::ShaderStag
         ==> has(gs, gname(m, g)->0, stage_of(m.entry_points@[j].stage))
 }
 
+// exactness of the stage map after the first k entry points: every stage bit of every key is owed to an entry point
+// of that stage that reaches a global of that name; and no key is empty
+pub open spec fn is_stage_bit(b: u32) -> bool { b == 1 || b == 2 || b == 4 }
+pub open spec fn has_bit(gs: Map<String, wgpu::ShaderStages>, n: String, b: u32) -> bool { gs.contains_key(n) && is_stage_bit(b) && gs[n].bits & b == b }
+pub open spec fn touched_by_entry(m: &naga::Module, j: int, n: String) -> bool { touched_fn(m, m.entry_points@[j].function)(n) }
+pub open spec fn gss_exact(m: &naga::Module, gs: Map<String, wgpu::ShaderStages>, k: int) -> bool {
+    &&& forall|n: String, b: u32| #[trigger] has_bit(gs, n, b) ==> exists|j: int| 0 <= j < k && stage_bit(m.entry_points@[j].stage) == b && #[trigger] touched_by_entry(m, j, n)
+    &&& forall|n: String| #[trigger] gs.contains_key(n) ==> gs[n].bits != 0
+}
+pub proof fn lemma_exact_step(m: &naga::Module, gs1: Map<String, wgpu::ShaderStages>, gs2: Map<String, wgpu::ShaderStages>, k: int)
+    requires 0 <= k < m.entry_points@.len(), gss_exact(m, gs1, k),
+        sound(gs1, gs2, stage_of(m.entry_points@[k].stage), touched_fn(m, m.entry_points@[k].function)),
+    ensures gss_exact(m, gs2, k + 1),
+{
+    let sb = stage_bit(m.entry_points@[k].stage);
+    assert(is_stage_bit(sb));
+    assert(forall|x: u32, s: u32, b: u32| (s == 1 || s == 2 || s == 4) && (b == 1 || b == 2 || b == 4) && #[trigger] ((x | s) & b) == b && (x & b) != b ==> s == b) by(bit_vector);
+    assert(forall|x: u32, s: u32| (s == 1 || s == 2 || s == 4) ==> #[trigger] (x | s) != 0) by(bit_vector);
+    assert(forall|b: u32| (b == 1 || b == 2 || b == 4) ==> #[trigger] (0u32 & b) != b) by(bit_vector);
+    assert forall|n: String, b: u32| #[trigger] has_bit(gs2, n, b) implies exists|j: int| 0 <= j < k + 1 && stage_bit(m.entry_points@[j].stage) == b && #[trigger] touched_by_entry(m, j, n) by {
+        if gs1.contains_key(n) && gs2[n].bits == gs1[n].bits {
+            assert(has_bit(gs1, n, b));
+            let j = choose|j: int| 0 <= j < k && stage_bit(m.entry_points@[j].stage) == b && #[trigger] touched_by_entry(m, j, n);
+            assert(touched_by_entry(m, j, n));
+        } else {
+            let x = old_bits(gs1, n);
+            assert(gs2[n].bits == x | sb);
+            if x & b == b {
+                assert(gs1.contains_key(n));
+                assert(has_bit(gs1, n, b));
+                let j = choose|j: int| 0 <= j < k && stage_bit(m.entry_points@[j].stage) == b && #[trigger] touched_by_entry(m, j, n);
+                assert(touched_by_entry(m, j, n));
+            } else {
+                assert(sb == b);
+                assert(touched_by_entry(m, k, n));
+            }
+        }
+    }
+    assert forall|n: String| #[trigger] gs2.contains_key(n) implies gs2[n].bits != 0 by {
+        if !(gs1.contains_key(n) && gs2[n].bits == gs1[n].bits) { assert(gs2[n].bits == old_bits(gs1, n) | sb); }
+    }
+}
+
 // ---------------- stage map ----------------
 // only the VERTEX | FRAGMENT | COMPUTE bits ever occur
 pub open spec fn bounded(gs: Map<String, wgpu::ShaderStages>) -> bool { forall|n: String| #[trigger] gs.contains_key(n) ==> gs[n].bits < 8 }
@@ -384,6 +427,94 @@ pub proof fn lemma_stmt_step(m: &naga::Module, b: &naga::Block, j: int,
 }
 
 
+
+// ---------------- exactness: no unused stage is ever added ----------------
+pub open spec fn old_bits(gs: Map<String, wgpu::ShaderStages>, n: String) -> u32 { if gs.contains_key(n) { gs[n].bits } else { 0 } }
+// every key of `b` is either unchanged from `a`, or is TOUCHED (names a global the walked code reaches) and got exactly `stage` added
+pub open spec fn sound(a: Map<String, wgpu::ShaderStages>, b: Map<String, wgpu::ShaderStages>, stage: wgpu::ShaderStages, t: spec_fn(String) -> bool) -> bool {
+    forall|n: String| #[trigger] b.contains_key(n) ==>
+        (a.contains_key(n) && b[n].bits == a[n].bits) || (t(n) && b[n].bits == old_bits(a, n) | stage.bits)
+}
+pub open spec fn touched_fn(m: &naga::Module, f: naga::Function) -> spec_fn(String) -> bool {
+    |n: String| exists|g: int| #[trigger] reach_top(m, &f, g) && gname(m, g) == Some(n)
+}
+pub open spec fn touched_block(m: &naga::Module, b: naga::Block) -> spec_fn(String) -> bool {
+    |n: String| exists|c: int, g: int| #[trigger] block_calls(&b, c) && #[trigger] reach_idx(m, c, g) && gname(m, g) == Some(n)
+}
+pub proof fn lemma_sound_refl(a: Map<String, wgpu::ShaderStages>, stage: wgpu::ShaderStages, t: spec_fn(String) -> bool)
+    ensures sound(a, a, stage, t),
+{}
+pub proof fn lemma_sound_trans(a: Map<String, wgpu::ShaderStages>, b: Map<String, wgpu::ShaderStages>, c: Map<String, wgpu::ShaderStages>, stage: wgpu::ShaderStages, t: spec_fn(String) -> bool)
+    requires sound(a, b, stage, t), sound(b, c, stage, t), mono(a, b),
+    ensures sound(a, c, stage, t),
+{
+    assert(forall|x: u32, y: u32| #[trigger] ((x | y) | y) == (x | y)) by(bit_vector);
+    assert(forall|y: u32| (0u32 | y) == y) by(bit_vector);
+    assert forall|n: String| #[trigger] c.contains_key(n) implies
+        (a.contains_key(n) && c[n].bits == a[n].bits) || (t(n) && c[n].bits == old_bits(a, n) | stage.bits) by {
+        if b.contains_key(n) { assert(b.contains_key(n)); }
+        if a.contains_key(n) { assert(b.contains_key(n)); }
+    }
+}
+pub proof fn lemma_sound_widen(a: Map<String, wgpu::ShaderStages>, b: Map<String, wgpu::ShaderStages>, stage: wgpu::ShaderStages, t1: spec_fn(String) -> bool, t2: spec_fn(String) -> bool)
+    requires sound(a, b, stage, t1), forall|n: String| #[trigger] t1(n) ==> t2(n),
+    ensures sound(a, b, stage, t2),
+{}
+// a global reachable from callee c of a well-formed module is reachable from index c
+pub proof fn lemma_top_idx(m: &naga::Module, c: int, g: int)
+    requires wf(m), 0 <= c < nfun(m), reach_top(m, &fun(m, c), g),
+    ensures reach_idx(m, c, g),
+{
+    assert(fn_ok(m, &fun(m, c), c));
+    if !fn_uses(&fun(m, c), g) {
+        let c2 = choose|c2: int| 0 <= c2 < nfun(m) && #[trigger] fn_calls(&fun(m, c), c2) && reach_idx(m, c2, g);
+        assert(0 <= c2 < c);
+    }
+}
+// what a sub-block touches, the enclosing block touches
+pub proof fn lemma_touched_sub(m: &naga::Module, b: &naga::Block, i: int, k: int)
+    requires 0 <= i < block_stmts(b).len(), 0 <= k < sub_blocks(&block_stmts(b)[i]).len(),
+    ensures forall|n: String| #[trigger] touched_block(m, sub_blocks(&block_stmts(b)[i])[k])(n) ==> touched_block(m, *b)(n),
+{
+    let sb = sub_blocks(&block_stmts(b)[i])[k];
+    assert forall|n: String| #[trigger] touched_block(m, sb)(n) implies touched_block(m, *b)(n) by {
+        let (c, g) = choose|c: int, g: int| #[trigger] block_calls(&sb, c) && #[trigger] reach_idx(m, c, g) && gname(m, g) == Some(n);
+        lemma_sub_calls(m, b, i, k, c);
+        assert(block_calls(b, c) && reach_idx(m, c, g));
+    }
+}
+// what a called function touches, the calling block touches
+pub proof fn lemma_touched_call(m: &naga::Module, b: &naga::Block, c: int)
+    requires wf(m), 0 <= c < nfun(m), block_calls(b, c),
+    ensures forall|n: String| #[trigger] touched_fn(m, fun(m, c))(n) ==> touched_block(m, *b)(n),
+{
+    assert forall|n: String| #[trigger] touched_fn(m, fun(m, c))(n) implies touched_block(m, *b)(n) by {
+        let g = choose|g: int| #[trigger] reach_top(m, &fun(m, c), g) && gname(m, g) == Some(n);
+        lemma_top_idx(m, c, g);
+        assert(block_calls(b, c) && reach_idx(m, c, g));
+    }
+}
+pub proof fn lemma_touched_body(m: &naga::Module, f: &naga::Function)
+    requires fn_ok(m, f, nfun(m)),
+    ensures forall|n: String| #[trigger] touched_block(m, f.body)(n) ==> touched_fn(m, *f)(n),
+{
+    assert forall|n: String| #[trigger] touched_block(m, f.body)(n) implies touched_fn(m, *f)(n) by {
+        let (c, g) = choose|c: int, g: int| #[trigger] block_calls(&f.body, c) && #[trigger] reach_idx(m, c, g) && gname(m, g) == Some(n);
+        assert(fn_calls(f, c));
+        assert(reach_top(m, f, g));
+    }
+}
+pub proof fn lemma_touched_callresult(m: &naga::Module, f: &naga::Function, c: int)
+    requires wf(m), fn_ok(m, f, nfun(m)), fn_calls(f, c),
+    ensures forall|n: String| #[trigger] touched_fn(m, fun(m, c))(n) ==> touched_fn(m, *f)(n),
+{
+    assert forall|n: String| #[trigger] touched_fn(m, fun(m, c))(n) implies touched_fn(m, *f)(n) by {
+        let g = choose|g: int| #[trigger] reach_top(m, &fun(m, c), g) && gname(m, g) == Some(n);
+        lemma_top_idx(m, c, g);
+        assert(reach_top(m, f, g));
+    }
+}
+
 //@fn wgsl.rs::naga_stages
 fn naga_stages(stage: naga::ShaderStage) -> «(r:» wgpu::ShaderStages«)
     ensures r.bits == stage_bit(stage), // [C03.stage-bit] vertex -> VERTEX, fragment -> FRAGMENT, compute -> COMPUTE»
@@ -440,6 +571,7 @@ fn update_stages_blocks(
     «requires wf(module), block_inv(module, block, old(visited)@, old(global_stages)@, stage), bounded(old(global_stages)@), stage.bits < 8,
     ensures
         bounded(final(global_stages)@), // [C03.blocks-bounded] no bit outside VERTEX|FRAGMENT|COMPUTE is ever added
+        sound(old(global_stages)@, final(global_stages)@, stage, touched_block(module, *block)), // [C03.blocks-sound] a key changes only if it names a global reached through a function called in this block, and then gains exactly `stage`: no unused stage is ever added
         mono(old(global_stages)@, final(global_stages)@), // [C03.blocks-mono] no key disappears, no stage bit is lost
         vmono(old(visited)@, final(visited)@),
         new_done(module, old(visited)@, final(visited)@, final(global_stages)@, stage), // [C03.blocks-newdone] every function visited here has all its reachable globals marked
@@ -449,7 +581,8 @@ fn update_stages_blocks(
     «proof { lemma_bits(); }
     let ghost v0 = visited@;
     let ghost gs0 = global_stages@;
-    let ghost b0 = *block;»
+    let ghost b0 = *block;
+    proof { lemma_sound_refl(gs0, stage, touched_block(module, b0)); }»
     for statement in «it:» block.iter()
         «invariant
             v0 == old(visited)@,
@@ -459,6 +592,7 @@ fn update_stages_blocks(
             wf(module), bounded(global_stages@), stage.bits < 8,
             mono(gs0, global_stages@), vmono(v0, visited@), new_done(module, v0, visited@, global_stages@, stage),
             block_inv(module, &b0, visited@, global_stages@, stage),
+            sound(gs0, global_stages@, stage, touched_block(module, b0)),
             forall|jj: int, c: int| 0 <= jj < it.index@ && #[trigger] calls_at(&b0, jj, c) ==> callee_post(module, c, visited@, global_stages@, stage),»
     {
         «broadcast use axiom_arena_index_req, axiom_handle_key_model, axiom_mk_handle;
@@ -467,7 +601,8 @@ fn update_stages_blocks(
         let ghost v1 = visited@;
         let ghost gs1 = global_stages@;
         assert(*it.seq()[j] == block_stmts(&b0)[j]);
-        let ghost st = block_stmts(&b0)[j];»
+        let ghost st = block_stmts(&b0)[j];
+        let ghost tb = touched_block(module, b0);»
         match statement {
             naga::Statement::Block(block) => {
                 «proof {
@@ -477,6 +612,8 @@ fn update_stages_blocks(
                 proof { lemma_unvisited_mono(module, v0, visited@); axiom_block_height(&b0, j, 0); }»
                 update_stages_blocks(module, block, global_stages, stage, visited);
                 «proof {
+                    lemma_touched_sub(module, &b0, j, 0);
+                    lemma_sound_widen(gs1, global_stages@, stage, touched_block(module, *block), tb);
                     assert forall|c: int| #[trigger] calls_at(&b0, j, c) implies callee_post(module, c, visited@, global_stages@, stage) by {
                         let k = choose|k: int| #[trigger] calls_sub(&b0, j, k, c);
                         assert(k == 0);
@@ -493,12 +630,17 @@ fn update_stages_blocks(
                 «let ghost v2 = visited@;
                 let ghost gs2 = global_stages@;
                 proof {
+                    lemma_touched_sub(module, &b0, j, 0);
+                    lemma_sound_widen(gs1, gs2, stage, touched_block(module, *accept), tb);
                     lemma_block_inv_step(module, &b0, v1, v2, gs1, gs2, stage);
                     lemma_sub_inv(module, &b0, j, 1, v2, gs2, stage);
                 }
                 proof { lemma_unvisited_mono(module, v0, visited@); axiom_block_height(&b0, j, 1); }»
                 update_stages_blocks(module, reject, global_stages, stage, visited);
                 «proof {
+                    lemma_touched_sub(module, &b0, j, 1);
+                    lemma_sound_widen(gs2, global_stages@, stage, touched_block(module, *reject), tb);
+                    lemma_sound_trans(gs1, gs2, global_stages@, stage, tb);
                     lemma_sub_post_mono(module, accept, v2, visited@, gs2, global_stages@, stage);
                     lemma_mono_trans(gs1, gs2, global_stages@);
                     lemma_new_done_trans(module, v1, v2, visited@, gs2, global_stages@, stage);
@@ -509,7 +651,7 @@ fn update_stages_blocks(
                 }»
             }
             naga::Statement::Switch { cases, .. } => {
-                «proof { assert(sub_blocks(&st) =~= cases@.map_values(|c: naga::SwitchCase| c.body)); }»
+                «proof { assert(sub_blocks(&st) =~= cases@.map_values(|c: naga::SwitchCase| c.body)); lemma_sound_refl(gs1, stage, tb); }»
                 for c in «it2:» cases
                     «invariant
                         v0 == old(visited)@, b0 == *block, vmono(v0, v1), mono(gs0, gs1),
@@ -520,6 +662,7 @@ fn update_stages_blocks(
                         wf(module), bounded(global_stages@), stage.bits < 8,
                         mono(gs1, global_stages@), vmono(v1, visited@), new_done(module, v1, visited@, global_stages@, stage),
                         block_inv(module, &b0, visited@, global_stages@, stage),
+                        tb == touched_block(module, b0), sound(gs1, global_stages@, stage, tb),
                         forall|k: int| 0 <= k < it2.index@ ==> sub_post(module, &#[trigger] sub_blocks(&st)[k], visited@, global_stages@, stage),»
                 {
                     «proof { lemma_bits(); }
@@ -534,6 +677,9 @@ fn update_stages_blocks(
                     proof { lemma_mono_trans(gs0, gs1, gs2); lemma_vmono_trans(v0, v1, v2); lemma_unvisited_mono(module, v0, visited@); axiom_block_height(&b0, j, k); }»
                     update_stages_blocks(module, &c.body, global_stages, stage, visited);
                     «proof {
+                        lemma_touched_sub(module, &b0, j, k);
+                        lemma_sound_widen(gs2, global_stages@, stage, touched_block(module, c.body), tb);
+                        lemma_sound_trans(gs1, gs2, global_stages@, stage, tb);
                         lemma_mono_trans(gs1, gs2, global_stages@);
                         lemma_new_done_trans(module, v1, v2, visited@, gs2, global_stages@, stage);
                         lemma_block_inv_step(module, &b0, v2, visited@, gs2, global_stages@, stage);
@@ -561,12 +707,17 @@ fn update_stages_blocks(
                 «let ghost v2 = visited@;
                 let ghost gs2 = global_stages@;
                 proof {
+                    lemma_touched_sub(module, &b0, j, 0);
+                    lemma_sound_widen(gs1, gs2, stage, touched_block(module, *body), tb);
                     lemma_block_inv_step(module, &b0, v1, v2, gs1, gs2, stage);
                     lemma_sub_inv(module, &b0, j, 1, v2, gs2, stage);
                 }
                 proof { lemma_unvisited_mono(module, v0, visited@); axiom_block_height(&b0, j, 1); }»
                 update_stages_blocks(module, continuing, global_stages, stage, visited);
                 «proof {
+                    lemma_touched_sub(module, &b0, j, 1);
+                    lemma_sound_widen(gs2, global_stages@, stage, touched_block(module, *continuing), tb);
+                    lemma_sound_trans(gs1, gs2, global_stages@, stage, tb);
                     lemma_sub_post_mono(module, body, v2, visited@, gs2, global_stages@, stage);
                     lemma_mono_trans(gs1, gs2, global_stages@);
                     lemma_new_done_trans(module, v1, v2, visited@, gs2, global_stages@, stage);
@@ -602,6 +753,8 @@ fn update_stages_blocks(
                         visited,
                     );
                     «proof {
+                        lemma_touched_call(module, &b0, c);
+                        lemma_sound_widen(gs1, global_stages@, stage, touched_fn(module, fun(module, c)), tb);
                         lemma_done_from_top(module, c, global_stages@, stage);
                         assert(vis(v2, c));
                         assert forall|d: int| #[trigger] vis(visited@, d) && !vis(v1, d) implies done(module, global_stages@, stage, d) by {
@@ -614,6 +767,7 @@ fn update_stages_blocks(
                     }»
                 } «else {
                     assert(vis(v1, c));
+                    proof { lemma_sound_refl(gs1, stage, tb); }
                 }
                 proof {
                     assert(callee_post(module, c, visited@, global_stages@, stage));
@@ -624,6 +778,7 @@ fn update_stages_blocks(
             }
             _ => «{
                 proof {
+                    lemma_sound_refl(gs1, stage, tb);
                     assert(sub_blocks(&st) =~= Seq::<naga::Block>::empty());
                     assert forall|c: int| #[trigger] calls_at(&b0, j, c) implies callee_post(module, c, visited@, global_stages@, stage) by {
                         assert(!stmt_call(&st, c));
@@ -633,6 +788,7 @@ fn update_stages_blocks(
             «}»,
         }
         «proof {
+            lemma_sound_trans(gs0, gs1, global_stages@, stage, tb);
             lemma_stmt_step(module, &b0, j, v0, v1, visited@, gs0, gs1, global_stages@, stage);
         }»
     }
@@ -657,6 +813,7 @@ fn update_stages(
         fn_inv(module, function, old(visited)@, old(global_stages)@, stage), bounded(old(global_stages)@), stage.bits < 8,
     ensures
         bounded(final(global_stages)@), // [C03.fn-bounded]
+        sound(old(global_stages)@, final(global_stages)@, stage, touched_fn(module, *function)), // [C03.fn-sound] a key changes only if it names a global this function reaches, and then gains exactly `stage`
         mono(old(global_stages)@, final(global_stages)@), // [C03.fn-mono]
         vmono(old(visited)@, final(visited)@),
         new_done(module, old(visited)@, final(visited)@, final(global_stages)@, stage), // [C03.fn-newdone]
@@ -672,7 +829,12 @@ fn update_stages(
     }»
     // Search the function body to find function call statements
     update_stages_blocks(module, &function.body, global_stages, stage, visited);
-    «proof { lemma_fn_inv_step(module, function, v0, visited@, gs0, global_stages@, stage); }»
+    «let ghost tf = touched_fn(module, *function);
+    proof {
+        lemma_touched_body(module, function);
+        lemma_sound_widen(gs0, global_stages@, stage, touched_block(module, function.body), tf);
+        lemma_fn_inv_step(module, function, v0, visited@, gs0, global_stages@, stage);
+    }»
 
     // Search the function body to find used globals.
     for (_, e) in «it:» function.expressions.iter()
@@ -684,6 +846,7 @@ fn update_stages(
             wf(module), fn_ok(module, function, nfun(module)), bounded(global_stages@), stage.bits < 8,
             mono(gs0, global_stages@), vmono(v0, visited@), new_done(module, v0, visited@, global_stages@, stage),
             fn_inv(module, function, visited@, global_stages@, stage),
+            tf == touched_fn(module, *function), sound(gs0, global_stages@, stage, tf),
             forall|c: int| #[trigger] block_calls(&function.body, c) ==> callee_post(module, c, visited@, global_stages@, stage),
             forall|j: int, c: int| 0 <= j < it.index@ && #[trigger] expr_call(&exprs(function)[j], c) ==> callee_post(module, c, visited@, global_stages@, stage),
             forall|j: int, g: int| 0 <= j < it.index@ && #[trigger] expr_global(&exprs(function)[j], g) && gname(module, g) is Some ==> has(global_stages@, gname(module, g)->0, stage),»
@@ -708,7 +871,13 @@ fn update_stages(
                 «proof {
                     lemma_bits8();
                     assert(bounded(global_stages@));
+                    assert(reach_top(module, function, handle_index(*g)));
+                    assert(sound(gs1, global_stages@, stage, tf)) by {
+                        assert(forall|y: u32| (0u32 | y) == y) by(bit_vector);
+                        if global.name is Some { assert(tf(global.name->0)); }
+                    }
                     assert(mono(gs1, global_stages@));
+                    lemma_sound_trans(gs0, gs1, global_stages@, stage, tf);
                     lemma_mono_trans(gs0, gs1, global_stages@);
                     lemma_fn_inv_step(module, function, v1, visited@, gs1, global_stages@, stage);
                     assert forall|c: int| #[trigger] block_calls(&function.body, c) implies callee_post(module, c, visited@, global_stages@, stage) by {
@@ -738,6 +907,8 @@ fn update_stages(
                     proof { lemma_unvisited_mono(module, v0, v1); lemma_unvisited_insert(module, v1, c); }»
                     update_stages(module, &module.functions[*f], global_stages, stage, visited);
                     «proof {
+                        lemma_touched_callresult(module, function, c);
+                        lemma_sound_widen(gs1, global_stages@, stage, touched_fn(module, fun(module, c)), tf);
                         lemma_done_from_top(module, c, global_stages@, stage);
                         assert(vis(v2, c));
                         // new_done from v1: c itself and everything visited during the call
@@ -752,8 +923,10 @@ fn update_stages(
                     }»
                 } «else {
                     assert(vis(v1, c));
+                    proof { lemma_sound_refl(gs1, stage, tf); }
                 }
                 proof {
+                    lemma_sound_trans(gs0, gs1, global_stages@, stage, tf);
                     assert(callee_post(module, c, visited@, global_stages@, stage));
                     lemma_mono_trans(gs0, gs1, global_stages@);
                     lemma_new_done_trans(module, v0, v1, visited@, gs1, global_stages@, stage);
@@ -796,6 +969,7 @@ pub fn global_shader_stages(module: &naga::Module) -> «(r:» BTreeMap<String, w
     requires wf(module), wf_entries(module),
     ensures
         bounded(r@), // [C03.bounded] only VERTEX | FRAGMENT | COMPUTE bits occur in any visibility
+        gss_exact(module, r@, module.entry_points@.len() as int), // [C03.exact] no unused stage is ever added: every stage bit of a visibility is owed to an entry point of that stage that statically reaches a global of that name, and a binding nothing reaches has no entry (empty visibility)
         gss_complete(module, r@, module.entry_points@.len() as int), // [C03.complete] no using stage is ever missing: a global reachable from an entry point of stage S (through any chain of calls, any nesting) has S in its visibility»
 {
     // Collect the shader stages for all entries that access a global variable.
@@ -807,7 +981,7 @@ pub fn global_shader_stages(module: &naga::Module) -> «(r:» BTreeMap<String, w
             wf(module), wf_entries(module),
             it.seq().len() == module.entry_points@.len(),
             forall|k: int| 0 <= k < it.seq().len() ==> *(#[trigger] it.seq()[k]) == module.entry_points@[k],
-            gss_complete(module, global_stages@, it.index@ as int), bounded(global_stages@),»
+            gss_complete(module, global_stages@, it.index@ as int), bounded(global_stages@), gss_exact(module, global_stages@, it.index@ as int),»
     {
         «broadcast use axiom_handle_key_model;
         let ghost j = it.index@ as int;
@@ -831,6 +1005,7 @@ pub fn global_shader_stages(module: &naga::Module) -> «(r:» BTreeMap<String, w
             &mut visited,
         );
         «proof {
+            lemma_exact_step(module, gs1, global_stages@, j);
             lemma_bits();
             assert forall|jj: int, g: int| 0 <= jj < j + 1 && #[trigger] reach_top(module, &module.entry_points@[jj].function, g) && gname(module, g) is Some
                 implies has(global_stages@, gname(module, g)->0, stage_of(module.entry_points@[jj].stage)) by {
